@@ -8,7 +8,7 @@ PROPS['C19'] = dict(
                timeout=dict(quick=600, thorough=12000))],
     rule='one pgsem database, buckets _default (ledger la from the start, lb and in 60% of the cases lc created MID-HISTORY after 1..12 operations) and b2 (lz alone, created at the start or '
          'mid-history); every ledger draws its own feature set (triggers WHEN new.ledger = ...) and runs its own genHistory stream (6..11 operations: create/revert/metadata/IK replays/dry runs, same '
-         'account, reference and idempotency-key alphabets on every ledger, per-ledger clocks so timestamps collide) interleaved by one PRNG; creates and account-metadata writes carry the marker '
+         'account, reference and idempotency-key alphabets on every ledger, per-ledger clocks so timestamps collide) interleaved by one PRNG; schema rows v1,v2,.. are inserted on random ledgers (50% at creation, 6% per step); creates and account-metadata writes carry the marker '
          'metadata lg=<ledger>. Two acting processes (each its own driver.Driver + ledgerstore.Factory + system controller = its own aloneInBucket flags) create ledgers and run the operations, '
          'through a fresh GetLedgerController (as the API does per request) or through a controller obtained earlier and KEPT (85% of the cases keep one on la from the time it was alone); a third '
          'process only observes: after EVERY event it snapshots EVERY ledger (all read paths of Snapshot, all 9 bucket tables filtered by ledger, the ledger\'s two id sequences) and reads through every '
@@ -27,7 +27,7 @@ PROPS['C19'] = dict(
                 'KF-C19-stale-alone-flag-other-process; model and implementation agree on what the kept controller lists). Monitors (independent of the model): [frame] every other ledger bit-identical '
                 'after every event, [listing-vs-table] listings = raw rows of that ledger, [foreign-row] no row carrying another ledger\'s marker / kept controllers list their own ledger only '
                 '([stale-alone-flag] when the holder\'s process last counted one ledger and another process added one), [differs-from-solo-run] each ledger = the same operations alone on a fresh database, '
-                'PIT reads included. Not covered: schema (chart) rows are only observed as raw rows (no schema writes in the histories); concurrent races between OpenLedger\'s count and CreateLedger\'s '
+                'PIT reads included. Schema (chart) rows are written straight through Store.InsertSchema (same version names on every ledger, chart marked with the ledger) and observed through ListSchemas by the same monitors; they are outside the Coq model. Not covered: concurrent races between OpenLedger\'s count and CreateLedger\'s '
                 'flag update inside one process; numscript meta() reads through a stale store.',
     trusted=HIST_TRUST + ['pgsem was extended for several schemas: schema-qualified sequences, functions/triggers/column defaults run with the schema of their table as search_path, index DDL per schema',
                           'the (process) abstraction: one driver.Driver + ledgerstore.Factory per process on a shared database; sequential interleaving only'],
